@@ -878,7 +878,54 @@ async fn run_mpsc_case(case: Rc<Case>) {
                 }
                 let bt = build(op, Wrap::Mpsc, &mut rng.borrow_mut());
                 keep.borrow_mut().extend(bt.keep);
-                let r = CancelAt::new(tx.send(bt.item), op.cancel).await;
+                // which sending API is used is a function of the case: send / reserve + Permit::send / try_send
+                let smode = if op.cancel.is_some() || case.name.starts_with("fixed") || case.name.starts_with("sweep") { 0 } else { (case.seed / 4) % 3 };
+                let r = match smode {
+                    1 => match tx.reserve().await {
+                        Ok(permit) => Some(Ok(permit.send(bt.item))),
+                        Err(e) => {
+                            // same classification as `send`; the value never left the caller
+                            tr(format!(
+                                "send {i} {} res={} isclosed={} reason={} disconnected={} itemspecific={}",
+                                bt.line,
+                                mpsc_send_kind(&e),
+                                e.is_closed() as u8,
+                                reason(e.closed_reason()),
+                                e.is_disconnected() as u8,
+                                e.is_item_specific() as u8
+                            ));
+                            progress();
+                            stopped = true;
+                            break;
+                        }
+                    },
+                    2 => {
+                        let mut item = Some(bt.item);
+                        let mut out = None;
+                        for _ in 0..30 {
+                            match tx.try_send(item.take().unwrap()) {
+                                Ok(h) => {
+                                    out = Some(Ok(h));
+                                    break;
+                                }
+                                Err(rch::mpsc::TrySendError::Full(v)) => {
+                                    item = Some(v);
+                                    tokio::task::yield_now().await;
+                                }
+                                Err(e) => {
+                                    let e: Result<rch::mpsc::SendError<Item>, _> = e.try_into();
+                                    out = Some(Err(e.ok().expect("not Full")));
+                                    break;
+                                }
+                            }
+                        }
+                        match out {
+                            Some(r) => Some(r),
+                            None => Some(tx.send(item.take().unwrap()).await),
+                        }
+                    }
+                    _ => CancelAt::new(tx.send(bt.item), op.cancel).await,
+                };
                 sent += 1;
                 progress();
                 match r {
